@@ -192,6 +192,22 @@ func (g *Gen) callSiteClauses(label string, n int, args []TV, pos token.Pos) {
 	}
 }
 
+// siteLabel: the name call-site clauses use for this call.
+func (g *Gen) siteLabel(cc *ssa.CallCommon) string {
+	label := g.c.calleeLabel(cc)
+	if label == "dynamic" {
+		// a call through a local variable holding a function value: name it after the variable
+		for nm, refs := range g.names {
+			for _, r := range refs {
+				if r.val == cc.Value && !r.isAddr {
+					label = "local:" + nm
+				}
+			}
+		}
+	}
+	return label
+}
+
 func (g *Gen) doCall(cc *ssa.CallCommon, pos token.Pos, name string) []string {
 	if b, ok := cc.Value.(*ssa.Builtin); ok {
 		if bn := b.Name(); (bn == "copy" || bn == "append") && g.fc != nil {
@@ -206,17 +222,7 @@ func (g *Gen) doCall(cc *ssa.CallCommon, pos token.Pos, name string) []string {
 		}
 		return g.builtin(b, cc, pos, name)
 	}
-	label := g.c.calleeLabel(cc)
-	if label == "dynamic" {
-		// a call through a local variable holding a function value: name it after the variable
-		for nm, refs := range g.names {
-			for _, r := range refs {
-				if r.val == cc.Value && !r.isAddr {
-					label = "local:" + nm
-				}
-			}
-		}
-	}
+	label := g.siteLabel(cc)
 	n := g.callOrdinal[cc]
 	if n == 0 {
 		g.callOrd[label]++
@@ -447,6 +453,9 @@ func (g *Gen) applyContract(fc *FuncContract, names []string, args []TV, cc *ssa
 	if envPost.results == nil {
 		envPost.results = []TV{}
 	}
+	// the executions this engine follows are the ones in which no panic is in flight (panics are
+	// the business of `nopanic`): at every call it models, the callee's recover() returns nil
+	envPost.vars["recovered"] = TV{"false", tyBool}
 	for _, cl := range fc.Clauses {
 		if (cl.Kind != "ensures" && cl.Kind != "establishes") || strings.HasPrefix(cl.Label, "local") {
 			continue
@@ -591,7 +600,12 @@ func (g *Gen) builtin(b *ssa.Builtin, cc *ssa.CallCommon, pos token.Pos, name st
 		return nil
 	case "recover":
 		g.flag("recover")
-		return g.freshResults(cc, "recover")
+		rr := g.freshResults(cc, "recover")
+		if len(rr) == 1 {
+			// `recovered` in this function's postconditions: this recover() call stopped a panic
+			g.recoverTerm = app("distinct", rr[0], g.zero(sigResults(cc)[0]))
+		}
+		return rr
 	case "ssa:wrapnilchk":
 		g.mayPanic("nil", app("distinct", arg(0), "0"), pos)
 		return []string{arg(0)}
@@ -702,6 +716,11 @@ func (g *Gen) checkPost(res []string, pos token.Pos) {
 	env.point, env.seqMax = g.cur, g.seq+1
 	if env.results == nil {
 		env.results = []TV{}
+	}
+	if g.recoverTerm != "" {
+		env.vars["recovered"] = TV{g.recoverTerm, tyBool}
+	} else {
+		env.vars["recovered"] = TV{"false", tyBool}
 	}
 	k := 0
 	for _, cl := range g.fc.Clauses {
